@@ -69,6 +69,14 @@ class XsdAssert(XsdComponent, ElementPathMixin[Union['XsdAssert', SchemaElementT
         else:
             return '%s(test=%r)' % (self.__class__.__name__, self.path[:37] + '...')
 
+    def __setstate__(self, state: dict[str, Any]) -> None:
+        super().__setstate__(state)
+        parser = state.get('parser')
+        if parser is not None and not hasattr(parser, 'source'):
+            # The slots of the parser are not restored from a pickle: the source
+            # is needed for reporting the position of a dynamic error.
+            parser.source = self.path
+
     def _parse(self) -> None:
         try:
             self.path = self.elem.attrib['test'].strip()
